@@ -35,7 +35,8 @@ RECORD_FIELDS = {
 }
 SAMPLE_FIELDS = {"loop_start": K.U32, "loop_len": K.U32, "volume": K.U8, "finetune": (-128, 127), "rate": K.U32,
                  "panning": (-128, 127), "relative_note": (-128, 127), "reserved2": K.U8, "start_pos": K.U32}
-ENV_FIELDS = {"sustain_point": K.U8, "loop_start_point": K.U8, "loop_end_point": K.U8, "ctl_index": K.U8, "gain_pct": K.U8, "velocity": K.U8}
+# the envelope chunk stores the three point indices (and the point count) as 16-bit fields
+ENV_FIELDS = {"sustain_point": K.U16, "loop_start_point": K.U16, "loop_end_point": K.U16, "ctl_index": K.U8, "gain_pct": K.U8, "velocity": K.U8}
 
 
 def _envelopes(s):
@@ -75,7 +76,9 @@ def fill_sampler(H, s, variant, pfx="s."):
     for name, env in _envelopes(s):
         k = counts.get(name, len(env.points))
         lo = env.range[0]
-        env.points = [(H.int(f"{pfx}{name}.x{i}", 0, 0xFFFF), H.int(f"{pfx}{name}.y{i}", lo, lo + 0xFFFF)) for i in range(k)]
+        # long lists: the first points symbolic, the rest concrete (the writers treat every point alike)
+        env.points = [(H.int(f"{pfx}{name}.x{i}", 0, 0xFFFF), H.int(f"{pfx}{name}.y{i}", lo, lo + 0xFFFF)) if (k <= 20 or i < 2) else (i, lo + 7 * i)
+                      for i in range(k)]
         for f, (a, b) in ENV_FIELDS.items():
             setattr(env, f, H.int(f"{pfx}{name}.{f}", a, b))
         env.enable = H.bool(f"{pfx}{name}.enable")
@@ -150,6 +153,8 @@ VARIANTS = {
     "formats": {"samples": {1: (F8, STEREO, PP, 2), 2: (F16, MONO, OFF, 2), 3: (F32, MONO, FWD, 1), 126: (F8, MONO, OFF, 0)}, "lean": True},
     "envelope_counts": {"points": {"volume": 0, "panning": 12, "pitch": 1, "effect1": 13, "effect2": 0}, "iname": 22},
     "empty_volume_fine_panning": {"points": {"volume": 0, "panning": 4}, "iname": 0},
+    # more points than the legacy header's 8-bit counters can express (the envelope chunk's are 16-bit)
+    "envelopes_longer_than_255": {"points": {"volume": 256, "panning": 300, "pitch": 257}, "iname": 3, "lean": True},
 }
 
 
